@@ -82,11 +82,13 @@ Definition total (cnts : list Z) : Z := fold_right Z.add 0 cnts.
 Definition sample (vals : list value) (counts : option (list Z)) (d : draw) : value :=
   let cnts := counts_of vals counts in pick vals cnts (dn d mod total cnts).
 
-(* Randomizer._skip_value:
-     use = self.probability == 1.0 or random.random() <= self.probability *)
+(* Randomizer._skip_value (after repair D60: [<] instead of [<=], so that
+   probability 0.0 never generates):
+     use = self.probability == 1.0 or random.random() < self.probability
+     return not use *)
 Definition skip_value (p : Q) (s : stream) : bool * stream :=
   if Qeq_bool p 1%Q then (false, s)
-  else let (d, s1) := next s in (negb (Qle_bool (rand01 d) p), s1).
+  else let (d, s1) := next s in (Qle_bool p (rand01 d), s1).
 
 Definition EPOCH_ORD : Z := 719163.          (* date(1970,1,1).toordinal() *)
 Definition MS_PER_DAY : Z := 86400000.
